@@ -11,6 +11,8 @@ import (
 	"fmt"
 	"io"
 	"strings"
+
+	"github.com/WICG/webpackage/go/internal/verifhook"
 )
 
 // Encoding identifies which draft version of http-mice to use.
@@ -116,6 +118,7 @@ func (enc Encoding) Encode(w io.Writer, buf []byte, recordSize int) (string, err
 	}
 	for i, proof := range proofs {
 		if i != 0 {
+			verifhook.Point("mice.Encode.proof")
 			if _, err := w.Write(proof); err != nil {
 				return "", err
 			}
@@ -214,6 +217,7 @@ func (d *decoder) Read(dst []byte) (int, error) {
 
 func (d *decoder) readNextRecord() error {
 	readBytes, err := io.ReadFull(d.r, d.recordBuf)
+	verifhook.Point("mice.readNextRecord.read")
 	if err == io.ErrUnexpectedEOF {
 		if uint64(readBytes) > d.recordSize {
 			return errors.New("mice: end of input reached in the middle of hash")
